@@ -539,7 +539,7 @@ def run_sweep(case: dict[str, Any]) -> Outcome:
 
 
 def main(chk: Check) -> None:
-    chk.explore("attacks", cases, run_case, quick=330, thorough=12000)
+    chk.explore("attacks", cases, run_case, quick=495, thorough=12000)
     chk.enumerate("idpairs", idpair_cases(), run_case)
     chk.enumerate("ttlgrid", ttl_cases(), run_case)
     chk.enumerate("sweep", sweep_cases(chk), run_sweep)
